@@ -33,6 +33,8 @@ func Run(c *hx.Ctx) {
 	crcCases(c)
 	gptCases(c, cfg)
 	mbrCases(c)
+	mbrTableCases(c)
+	mbrDecodeCases(c)
 }
 
 // crcCases cross-checks the Lean CRC32 against hash/crc32.
